@@ -197,6 +197,21 @@ func fixed(out *hx.Out) {
 	out.P("prune")
 	out.P("sleep 2010")
 	out.P("final")
+	// the prune ticker fires (twice) while the table still has a pending initializer: no Prune call until
+	// the initializer is done, then one with the complete contents
+	for _, mode := range []string{"s", "b"} {
+		out.P("#case fix-prune-ticker-before-init-%s", mode)
+		out.P("cfg %s 2 10 40 2005 1 0", mode)
+		out.P("w put 1")
+		out.P("sleep 2100")
+		out.P("dump")
+		out.P("w put 2")
+		out.P("sleep 2560")
+		out.P("dump")
+		out.P("initdone")
+		out.P("sleep 100")
+		out.P("final")
+	}
 	out.P("#case fix-prune-noinit")
 	out.P("cfg b 3 10 40 2005 0")
 	out.P("w put 1")
@@ -293,7 +308,14 @@ func genCase(r *hx.Rand, prop string, out *hx.Out) {
 	steps := 4 + r.Intn(12)
 	total := 0
 	initDone := init == 0
+	longAt := -1
+	if prunei > 0 && r.Chance(60) {
+		longAt = r.Intn(steps) // one sleep longer than the prune interval (often before initdone)
+	}
 	for i := 0; i < steps; i++ {
+		if i == longAt {
+			out.P("sleep %d", 2100+10*r.Intn(50))
+		}
 		x := r.Intn(100)
 		switch {
 		case x < 40:
